@@ -2,7 +2,12 @@
 
 from typing import Any, Callable, Mapping, Optional, Sequence, Type, Union, cast
 
-from .exc import ExecutionError, GraphQLSyntaxError, VariablesCoercionError
+from .exc import (
+    CoercionError,
+    ExecutionError,
+    GraphQLSyntaxError,
+    VariablesCoercionError,
+)
 from .execution import (
     BlockingExecutor,
     Executor,
@@ -140,6 +145,9 @@ def process_graphql_query(
     except VariablesCoercionError as err:
         return _abort(data=None, errors=err.errors)
     except ExecutionError as err:
+        return _abort(data=None, errors=[err])
+    except CoercionError as err:
+        # Invalid directive arguments on the root selection.
         return _abort(data=None, errors=[err])
 
 
